@@ -433,7 +433,7 @@ def run_system(spec):
     script = r"""
 import sys, time, os
 import execnet
-assert execnet.__file__.startswith('/repo/src'), execnet.__file__
+assert execnet.__file__.startswith(os.path.join(os.environ.get('VERIF_REPO', '/repo'), 'src')), execnet.__file__
 out = sys.argv[1]; model = sys.argv[2]
 group = execnet.Group()
 gw = group.makegateway("popen//execmodel=" + model)
